@@ -95,6 +95,22 @@ pub fn ops() -> Vec<Op> {
 /// The first 12 operations form the base alphabet of the deeper pass.
 pub const BASE_OPS: usize = 12;
 
+fn index_of(op: Op) -> usize {
+    ops().iter().position(|o| *o == op).expect("operation of the menu")
+}
+
+/// The two-file alphabet of the deepest pass: a with and without its include of b, both as roots, b's text
+/// changing under the host (on disk, seen by the include walk only) and through it, between two texts.
+pub fn deep_ops() -> Vec<usize> {
+    [Op::Edit(0, 0), Op::Edit(0, 1), Op::Root(0), Op::Root(1), Op::Disk(1, 0), Op::Disk(1, 3), Op::Edit(1, 0), Op::Edit(1, 3)].into_iter().map(index_of).collect()
+}
+
+/// A start state with a past: b has been the root once (the host has been handed its text), a is the root
+/// again and includes b (the include walk has handed the host b's text a second time).
+pub fn deep_prefix() -> Vec<usize> {
+    [Op::Root(1), Op::Root(0), Op::Edit(0, 1)].into_iter().map(index_of).collect()
+}
+
 fn show(op: Op) -> String {
     match op {
         Op::Edit(f, v) => format!("Edit({},v{v})", FILES[f]),
@@ -193,11 +209,14 @@ impl Engine for C07 {
         format!(
             "every history of <= {} operations over 40 operations (Edit(file, variant) for 3 files x 6 text variants keeping the root; Root(file) for the three files and for a fourth in a subdirectory; Disk(file, variant) = a non-root file changes on disk and the root is re-selected) \
              and every history of exactly {} operations over 12 base operations (Edit to plain / include-next / include-previous, Root), starting from root a, all files plain; \
+             and every history of <= {} operations over a two-file alphabet of 8 (a with / without its include of b, a and b as roots, b plain / faulty through the host and on disk only) from that start and, <= {} operations, from the state after Root(b) ; Root(a) ; Edit(a, includes b) - a start with a past, in which the host has been handed b's text both by the client and by the include walk; \
              variants: plain (with an anonymous def that has a field) / includes the next file (a->b->c->a, so cycles arise) / same with the include statement moved down two lines / a faulty def / includes the PREVIOUS file at the same byte range as variant 1 (only the path differs) / includes a file that exists only in the subdirectory of the fourth root (it resolves from there, never from here); \
              after the last operation of every history (every history is a prefix of longer ones, so every step of every history is compared) the full query transcript of the live host \
              equals that of a fresh host given only the current texts and root. states = distinct (root, variants) configurations reached; transitions = operations applied; non-trivial = histories with an include present at some point.",
             tier.pick(3, 4),
-            tier.pick(4, 5)
+            tier.pick(4, 5),
+            tier.pick(4, 6),
+            tier.pick(5, 6)
         )
     }
 
@@ -218,6 +237,37 @@ impl Engine for C07 {
             let mut seen: BTreeSet<(usize, [usize; 3])> = BTreeSet::new();
             // pass 1: all 27 operations to depth d-1; pass 2: base operations at depth d
             let plans = [(ops().len(), 1, tier.pick(3, 4)), (BASE_OPS, tier.pick(4, 5), tier.pick(4, 5))];
+            // pass 3: the two-file alphabet, deeper, from the initial state and from a state with a past
+            let deep = deep_ops();
+            let prefix = deep_prefix();
+            let deep_plans: [(&[usize], u32); 2] = [(&[], tier.pick(4, 6)), (&prefix, tier.pick(5, 6))];
+            for (pre, depth) in deep_plans {
+                let mut h: Vec<usize> = Vec::new();
+                words::for_each_word(deep.len(), depth, shard, n, |_, w| {
+                    if w.is_empty() {
+                        return true;
+                    }
+                    h.clear();
+                    h.extend_from_slice(pre);
+                    h.extend(w.iter().map(|&i| deep[i]));
+                    ctx.trace(|| json!({ "history": h, "witness": show_history(&h) }));
+                    let r = guard(|| run_history(&h, false));
+                    ctx.case(true);
+                    ctx.add("traces", 1);
+                    ctx.add("deep_two_file_histories", 1);
+                    ctx.add("transitions", h.len() as u64);
+                    match r {
+                        Ok((f, _, compares)) => {
+                            ctx.add("comparisons", compares);
+                            if let Some((c, d)) = f {
+                                ctx.fail(Failure::new(&c, show_history(&h), d, json!({ "history": h, "witness": show_history(&h) })));
+                            }
+                        }
+                        Err(p) => ctx.fail(Failure::new("panic", show_history(&h), format!("{} at {}", p.message, p.location), json!({ "history": h, "witness": show_history(&h) }))),
+                    }
+                    !ctx.expired()
+                });
+            }
             for (k, min_len, depth) in plans {
             words::for_each_word(k, depth, shard, n, |_, h| {
                 if h.len() < min_len {
